@@ -151,8 +151,10 @@ let ntt_case toks =
         let pz = zz_of_cz p and gz = zz_of_cz g in
         let a = take n (drop (cm * n) v) in
         let b = take n (drop (nm * n + cm * n) v) in
-        let fwd x = if n = 1 then M.ntt_fwd1 p x else M.ntt_fwd wz p g kmaxn (nat_of_int (k - 1)) x in
-        let inv x = if n = 1 then M.ntt_inv1 p ik kmaxn x else M.ntt_inv wz p g ik kmaxn (nat_of_int (k - 1)) x in
+        let fwd x = if n = 1 then M.ntt_fwd1 p x else M.ntt_fwd_s wz p g kmaxn (nat_of_int (k - 1)) x in   (* the source-structured model *)
+        let inv x = if n = 1 then M.ntt_inv1 p ik kmaxn x else M.ntt_inv_s wz p g ik kmaxn (nat_of_int (k - 1)) x in
+        let gfwd x = if n = 1 then M.ntt_fwd1 p x else M.ntt_fwd wz p g kmaxn (nat_of_int (k - 1)) x in       (* the generic layer-by-layer model *)
+        let ginv x = if n = 1 then M.ntt_inv1 p ik kmaxn x else M.ntt_inv wz p g ik kmaxn (nat_of_int (k - 1)) x in
         let addm x y = List.map2 (fun u v -> M.addmod wz p u v) x y in
         let subm x y = List.map2 (fun u v -> M.submod wz p u v) x y in
         let mulm x y = List.map2 (fun u v -> zmod (u *! v) p) x y in
@@ -161,6 +163,7 @@ let ntt_case toks =
         (match op with
          | "fwd" -> out (fwd a) (strza (spec_fwd pz gz kmax k (zarr a)))
          | "inv" -> out (inv a) "?"
+         | "geneq" -> out (fwd a @ inv a) (strl (gfwd a @ ginv a))      (* structured = generic on canonical inputs (theorem instance) *)
          | "rt_fi" -> out (inv (fwd a)) (strl a)
          | "rt_if" -> out (fwd (inv a)) (strl a)
          | "mul" -> out (inv (mulm (fwd a) (fwd b))) (strza (spec_nega pz (zarr a) (zarr b)))
